@@ -47,22 +47,40 @@ Definition live (st : store) (t : tok) : option (nat * sess) :=
 Fixpoint upd {A} (l : list A) (n : nat) (x : A) : list A :=
   match l, n with [], _ => [] | _ :: r, O => x :: r | y :: r, S m => y :: upd r m x end.
 
+(* a token the store issued whose session was invalidated: the MAC still verifies, the session row is gone *)
+Definition dead (st : store) (t : tok) : bool :=
+  match t with
+  | TBad => false
+  | TId n => match nth_error (st_sess st) n with Some s => negb (s_alive s) | None => false end
+  end.
+
+(* per-field storage rules of sqlite.go: field 0 (device certificate chain) is a plain INSERT: the first value stays;
+   field 1 (device self info) is an UPDATE of the row field 0 created: without it nothing is stored; field 2
+   (incomplete voucher header) is write-once (UNIQUE constraint); every other field is an upsert *)
+Definition set_field (f : N) (v : bytes) (l : list (N * bytes)) : list (N * bytes) * res :=
+  if (f =? 0)%N then (match fget 0 l with Some _ => l | None => fset 0 v l end, ROk)
+  else if (f =? 1)%N then (match fget 0 l with Some _ => fset 1 v l | None => l end, ROk)
+  else if (f =? 2)%N then (match fget 2 l with Some _ => (l, RErr) | None => (fset 2 v l, ROk) end)
+  else (fset f v l, ROk).
+
 Definition step (st : store) (o : op) : store * res :=
   match o with
   | ONew _ => (mkst (st_sess st ++ [mks true []]) (st_vouchers st) (st_blobs st), RTok (length (st_sess st)))
   | OSet t f v =>
     match live st t with
-    | None => (st, RInvalid)
-    | Some (n, s) => (mkst (upd (st_sess st) n (mks true (fset f v (s_fields s)))) (st_vouchers st) (st_blobs st), ROk)
+    | None => (st, if dead st t then (if (f =? 1)%N then ROk else RErr) else RInvalid)
+    | Some (n, s) =>
+      let '(l, r) := set_field f v (s_fields s) in
+      (mkst (upd (st_sess st) n (mks true l)) (st_vouchers st) (st_blobs st), r)
     end
   | OGet t f =>
     match live st t with
-    | None => (st, RInvalid)
+    | None => (st, if dead st t then RNotFound else RInvalid)
     | Some (_, s) => (st, match fget f (s_fields s) with Some v => RVal v | None => RNotFound end)
     end
   | OInval t =>
     match live st t with
-    | None => (st, RNotFound)
+    | None => (st, if dead st t then ROk else RNotFound)
     | Some (n, s) => (mkst (upd (st_sess st) n (mks false [])) (st_vouchers st) (st_blobs st), ROk)
     end
   | OAddV g v =>
@@ -71,9 +89,14 @@ Definition step (st : store) (o : op) : store * res :=
     | None => (mkst (st_sess st) (bput g v (st_vouchers st)) (st_blobs st), ROk)
     end
   | OReplV g g' v =>
+    (* AddVoucher(new) then remove(old); when the old one is missing the new one is removed again *)
     match bget g' (st_vouchers st) with
     | Some _ => (st, RErr)
-    | None => (mkst (st_sess st) (bput g' v (bdel g (st_vouchers st))) (st_blobs st), ROk)
+    | None =>
+      match bget g (st_vouchers st) with
+      | Some _ => (mkst (st_sess st) (bput g' v (bdel g (st_vouchers st))) (st_blobs st), ROk)
+      | None => (st, if bytes_eqb g g' then ROk else RNotFound)
+      end
     end
   | ORemV g =>
     match bget g (st_vouchers st) with
